@@ -2173,6 +2173,49 @@ def keywords_to_positional(modules, log):
                             names = names[1:]
                         req = names[: len(names) - len(a.defaults)] if a.defaults else names
                         sigs.setdefault(c.name, []).append((tuple(req), frozenset(names + [x.arg for x in a.kwonlyargs]), a.kwarg is not None))
+    # module-level functions of the packages, called by their bare name (or module.name)
+    fsigs = {}
+    for mi in modules.values():
+        for st in mi.tree.body:
+            if isinstance(st, (ast.FunctionDef, ast.AsyncFunctionDef)):
+                a = st.args
+                if a.posonlyargs or a.vararg:
+                    fsigs.setdefault(st.name, []).append(None)
+                    continue
+                names = [x.arg for x in a.args]
+                req = names[: len(names) - len(a.defaults)] if a.defaults else names
+                fsigs.setdefault(st.name, []).append((tuple(req), frozenset(names + [x.arg for x in a.kwonlyargs]), a.kwarg is not None))
+    STD = {"re.compile": (("pattern",), frozenset(("pattern", "flags")), False), "re.search": (("pattern", "string"), frozenset(("pattern", "string", "flags")), False), "re.match": (("pattern", "string"), frozenset(("pattern", "string", "flags")), False), "json.dumps": (("obj",), frozenset(("obj",)), True), "json.loads": (("s",), frozenset(("s",)), True), "copy.deepcopy": (("x",), frozenset(("x", "memo")), False), "deepcopy": (("x",), frozenset(("x", "memo")), False), "sorted": (("iterable",), frozenset(("iterable",)), True), "Timeslot": (("start", "end"), frozenset(("start", "end")), False)}
+    for mi in modules.values():
+        for c in ast.walk(mi.tree):
+            if not (isinstance(c, ast.Call) and c.keywords and not any(isinstance(a_, ast.Starred) for a_ in c.args) and not any(k.arg is None for k in c.keywords)):
+                continue
+            dn = ast.unparse(c.func) if isinstance(c.func, (ast.Name, ast.Attribute)) else None
+            cand = None
+            if dn in STD:
+                cand = [STD[dn]]
+            elif isinstance(c.func, ast.Name) and c.func.id in fsigs and None not in fsigs[c.func.id]:
+                cand = fsigs[c.func.id]
+            if not cand:
+                continue
+            kw = {k.arg: k for k in c.keywords}
+            fits = {sg[0] for sg in cand if (set(kw) <= sg[1] or sg[2]) and set(kw) & set(sg[0])}
+            if len(fits) != 1:
+                continue
+            req = next(iter(fits))
+            moved, i = [], len(c.args)
+            while i < len(req) and req[i] in kw:
+                moved.append(kw[req[i]])
+                i += 1
+            if not moved or any(k.arg in req and k not in moved for k in c.keywords):
+                continue
+            # optional parameters that directly follow, in order, are moved too when the rules know them positionally (re.compile(p, flags))
+            c.args = list(c.args) + [k.value for k in moved]
+            c.keywords = [k for k in c.keywords if k not in moved]
+            if dn in ("re.compile", "re.search", "re.match") and len(c.keywords) == 1 and c.keywords[0].arg == "flags" and len(c.args) == len(req):
+                c.args.append(c.keywords[0].value)
+                c.keywords = []
+            log.append(f"keyword arguments of required parameters written positionally {mi.name}:{c.lineno} {dn}({', '.join(k.arg for k in moved)})")
     for mi in modules.values():
         for c in ast.walk(mi.tree):
             if not (isinstance(c, ast.Call) and isinstance(c.func, ast.Attribute) and c.func.attr in sigs and c.keywords):
@@ -2663,8 +2706,329 @@ def truth_alias(fn, log=None, where=""):
     return bool(done)
 
 
+def canonical_imports(modules, log):
+    """`from peewee import fn` ... `fn.julianday(x)`  ->  `peewee.fn.julianday(x)` (the spelling the rules read), when the module
+    does not bind `peewee` to something else; likewise `from datetime import datetime as dt`-style aliases are left alone."""
+    for mi in modules.values():
+        tree = mi.tree
+        has_peewee = any(isinstance(st, ast.Import) and any(a.name == "peewee" and a.asname is None for a in st.names) for st in tree.body)
+        names = {}
+        for st in tree.body:
+            if isinstance(st, ast.ImportFrom) and st.module == "peewee" and st.level == 0:
+                for a in st.names:
+                    if a.name in ("fn", "DoesNotExist", "IntegrityError", "OperationalError") and a.asname is None:
+                        names[a.name] = st
+        if not names:
+            continue
+        if any(isinstance(n, ast.Name) and n.id in names and isinstance(n.ctx, ast.Store) for n in ast.walk(tree)):
+            continue
+
+        class R(ast.NodeTransformer):
+            def visit_Name(self, n):
+                if n.id in names and isinstance(n.ctx, ast.Load):
+                    return ast.copy_location(ast.Attribute(value=ast.Name(id="peewee", ctx=ast.Load()), attr=n.id, ctx=ast.Load()), n)
+                return n
+
+        mi.tree = R().visit(tree)
+        if not has_peewee:
+            imp = ast.Import(names=[ast.alias(name="peewee", asname=None)])
+            ast.copy_location(imp, tree.body[0])
+            mi.tree.body.insert(0, imp)
+        ast.fix_missing_locations(mi.tree)
+        log.append(f"names imported from peewee written as peewee.<name> {mi.name}: {sorted(names)}")
+
+
+def logged_result_to_return(fn, log=None, where=""):
+    """x = E ; <logging statements that mention x> ; return x      ->      <logging statements> ; return E
+    (x bound once, read only by those logging calls and by the one return that follows them in the same block)."""
+    par = {}
+    for n in ast.walk(fn):
+        for c in ast.iter_child_nodes(n):
+            par[id(c)] = n
+    done = []
+    for ret in [n for n in ast.walk(fn) if isinstance(n, ast.Return) and isinstance(n.value, ast.Name)]:
+        x = ret.value.id
+        holder = par.get(id(ret))
+        blk = None
+        for field in ("body", "orelse", "finalbody"):
+            b = getattr(holder, field, None)
+            if isinstance(b, list) and any(s_ is ret for s_ in b):
+                blk = b
+        if blk is None:
+            continue
+        k = [i for i, s_ in enumerate(blk) if s_ is ret][0]
+        j = k - 1
+        while j >= 0 and isinstance(blk[j], ast.Expr) and isinstance(blk[j].value, ast.Call) and _is_log_call(blk[j].value):
+            j -= 1
+        if j < 0 or j == k - 1:
+            continue
+        asg = blk[j]
+        nodes = [n for n in ast.walk(fn) if isinstance(n, ast.Name) and n.id == x]
+        stores = [n for n in nodes if isinstance(n.ctx, ast.Store)]
+        two = isinstance(asg, ast.If) and len(asg.body) == 1 and len(asg.orelse) == 1 and all(isinstance(b_, ast.Assign) and len(b_.targets) == 1 and isinstance(b_.targets[0], ast.Name) and b_.targets[0].id == x for b_ in (asg.body[0], asg.orelse[0])) and len(stores) == 2
+        if two:
+            # if c: x = A else: x = B ; <logs> ; return x     ->     <logs> ; if c: return A else: return B
+            logs = blk[j + 1 : k]
+            inside = {id(n) for l in logs for n in ast.walk(l)} | {id(ret.value), id(asg.body[0].targets[0]), id(asg.orelse[0].targets[0])}
+            if any(id(n) not in inside for n in nodes):
+                continue
+            asg.body = [ast.copy_location(ast.Return(value=asg.body[0].value), asg.body[0])]
+            asg.orelse = [ast.copy_location(ast.Return(value=asg.orelse[0].value), asg.orelse[0])]
+            for l in logs:
+                c = l.value
+                c.args = [a if not any(isinstance(y, ast.Name) and y.id == x for y in ast.walk(a)) else ast.copy_location(ast.Constant(value="<log-only>"), a) for a in c.args]
+                c.keywords = [kw for kw in c.keywords if not any(isinstance(y, ast.Name) and y.id == x for y in ast.walk(kw.value))]
+            blk[j : k + 1] = logs + [asg]
+            done.append(x)
+            continue
+        if not (isinstance(asg, ast.Assign) and len(asg.targets) == 1 and isinstance(asg.targets[0], ast.Name) and asg.targets[0].id == x):
+            continue
+        if len(stores) != 1:
+            continue
+        logs = blk[j + 1 : k]
+        inside = {id(n) for l in logs for n in ast.walk(l)} | {id(ret.value), id(asg.targets[0])}
+        if any(id(n) not in inside for n in nodes):
+            continue
+        ret.value = asg.value
+        for l in logs:
+            c = l.value
+            c.args = [a if not any(isinstance(y, ast.Name) and y.id == x for y in ast.walk(a)) else ast.copy_location(ast.Constant(value="<log-only>"), a) for a in c.args]
+            c.keywords = [kw for kw in c.keywords if not any(isinstance(y, ast.Name) and y.id == x for y in ast.walk(kw.value))]
+        blk.remove(asg)
+        done.append(x)
+    if done:
+        ast.fix_missing_locations(fn)
+        if log is not None:
+            log.append(f"logged result returned directly {where}:{fn.name} {done}")
+    return bool(done)
+
+
+def push_negations(fn, log=None, where=""):
+    """if not (a and b): ...  ->  if not a or not b: ... ; not (x == y) -> x != y ; not (not x) -> x   (tests of if / while only)"""
+    n_done = [0]
+
+    def neg(e):
+        if isinstance(e, ast.UnaryOp) and isinstance(e.op, ast.Not):
+            return e.operand
+        if isinstance(e, ast.BoolOp):
+            n_done[0] += 1
+            return ast.copy_location(ast.BoolOp(op=ast.Or() if isinstance(e.op, ast.And) else ast.And(), values=[neg(v) for v in e.values]), e)
+        if isinstance(e, ast.Compare) and len(e.ops) == 1:
+            flip = {ast.Is: ast.IsNot, ast.IsNot: ast.Is, ast.Eq: ast.NotEq, ast.NotEq: ast.Eq, ast.In: ast.NotIn, ast.NotIn: ast.In}
+            t = type(e.ops[0])
+            if t in flip:
+                n_done[0] += 1
+                return ast.copy_location(ast.Compare(left=e.left, ops=[flip[t]()], comparators=e.comparators), e)
+        return ast.copy_location(ast.UnaryOp(op=ast.Not(), operand=e), e)
+
+    for st in [n for n in ast.walk(fn) if isinstance(n, (ast.If, ast.While))]:
+        t = st.test
+        if isinstance(t, ast.UnaryOp) and isinstance(t.op, ast.Not) and isinstance(t.operand, (ast.BoolOp, ast.Compare, ast.UnaryOp)):
+            st.test = neg(t.operand)
+    if n_done[0]:
+        ast.fix_missing_locations(fn)
+        if log is not None:
+            log.append(f"negations pushed inwards {where}:{fn.name} ({n_done[0]})")
+    return bool(n_done[0])
+
+
+def inline_single_use_temps(fn, log=None, where=""):
+    """t__h = E ; if not t__h: ...   ->   if not E: ...     (a temporary the helper expansion introduced for an argument, read
+    exactly once, by the statement that follows it)"""
+    done = []
+
+    def rec(stmts):
+        out = []
+        i = 0
+        while i < len(stmts):
+            st = stmts[i]
+            nxt = stmts[i + 1] if i + 1 < len(stmts) else None
+            if isinstance(st, ast.Assign) and len(st.targets) == 1 and isinstance(st.targets[0], ast.Name) and st.targets[0].id.endswith("__h") and nxt is not None:
+                nm = st.targets[0].id
+                # reads of THIS binding: up to the next binding of the same temporary in the block (expansions reuse the name)
+                uses_all = []
+                for later in stmts[i + 1 :]:
+                    if later is not nxt and isinstance(later, ast.Assign) and len(later.targets) == 1 and isinstance(later.targets[0], ast.Name) and later.targets[0].id == nm:
+                        # the re-binding's own right-hand side still reads THIS binding
+                        uses_all += [n for n in ast.walk(later.value) if isinstance(n, ast.Name) and n.id == nm and isinstance(n.ctx, ast.Load)]
+                        break
+                    uses_all += [n for n in ast.walk(later) if isinstance(n, ast.Name) and n.id == nm and isinstance(n.ctx, ast.Load)]
+                if not any(isinstance(later, ast.Assign) and len(later.targets) == 1 and isinstance(later.targets[0], ast.Name) and later.targets[0].id == nm for later in stmts[i + 2 :]):
+                    # last binding in this block: the name must not be read anywhere else in the function either
+                    stores_ = [n for n in ast.walk(fn) if isinstance(n, ast.Name) and n.id == nm and isinstance(n.ctx, ast.Store)]
+                    loads_ = [n for n in ast.walk(fn) if isinstance(n, ast.Name) and n.id == nm and isinstance(n.ctx, ast.Load)]
+                    if len(loads_) > len(stores_):
+                        uses_all = uses_all + [None]
+                head = nxt.test if isinstance(nxt, (ast.If, ast.While)) else (nxt.value if isinstance(nxt, (ast.Assign, ast.Expr, ast.Return)) and getattr(nxt, "value", None) is not None else None)
+                uses_head = [n for n in ast.walk(head) if isinstance(n, ast.Name) and n.id == nm] if head is not None else []
+                if len(uses_all) == 1 and len(uses_head) == 1 and not isinstance(nxt, ast.While):
+                    class R(ast.NodeTransformer):
+                        def visit_Name(self, n):
+                            if n.id == nm and isinstance(n.ctx, ast.Load):
+                                return ast.copy_location(ast.parse(ast.unparse(st.value), mode="eval").body, n)
+                            return n
+                    if isinstance(nxt, ast.If):
+                        nxt.test = R().visit(nxt.test)
+                    else:
+                        nxt.value = R().visit(nxt.value)
+                    ast.fix_missing_locations(nxt)
+                    done.append(nm)
+                    i += 1
+                    continue
+            for field in ("body", "orelse", "finalbody"):
+                blk = getattr(st, field, None)
+                if isinstance(blk, list) and blk and isinstance(blk[0], ast.stmt) and not isinstance(st, (ast.FunctionDef, ast.AsyncFunctionDef, ast.ClassDef)):
+                    setattr(st, field, rec(blk))
+            if isinstance(st, ast.Try):
+                for h in st.handlers:
+                    h.body = rec(h.body)
+            out.append(st)
+            i += 1
+        return out
+
+    fn.body = rec(fn.body)
+    if done and log is not None:
+        log.append(f"single-use temporaries of an expansion substituted {where}:{fn.name} {done}")
+    return bool(done)
+
+
+ROLE_LOCALS = {
+    # (module, function) -> [(what the local is bound to once: callee text, the name the rules use)]
+    ("aw_datastore.migration", "peewee_v2_to_sqlite_v1"): [("PeeweeStorage", "pw_db")],
+    ("aw_datastore.migration", "check_for_migration"): [],
+}
+
+
+def role_named_locals(modules, log):
+    """a local that is bound once to a call of a given constructor gets the name the rules know it by (a rename of locals is
+    invisible to behaviour; the rules speak of `pw_db`, the legacy store object)"""
+    for (mod, fname), table in ROLE_LOCALS.items():
+        mi = modules.get(mod)
+        if mi is None or not table:
+            continue
+        for fn in [n for n in ast.walk(mi.tree) if isinstance(n, (ast.FunctionDef, ast.AsyncFunctionDef)) and n.name == fname]:
+            for callee, want in table:
+                binds = [st for st in ast.walk(fn) if isinstance(st, ast.Assign) and len(st.targets) == 1 and isinstance(st.targets[0], ast.Name) and isinstance(st.value, ast.Call) and ast.unparse(st.value.func).split(".")[-1] == callee]
+                if len(binds) != 1:
+                    continue
+                have = binds[0].targets[0].id
+                if have == want or any(isinstance(n, ast.Name) and n.id == want for n in ast.walk(fn)):
+                    continue
+                if sum(1 for n in ast.walk(fn) if isinstance(n, ast.Name) and n.id == have and isinstance(n.ctx, ast.Store)) != 1:
+                    continue
+                for n in ast.walk(fn):
+                    if isinstance(n, ast.Name) and n.id == have:
+                        n.id = want
+                log.append(f"local named by its role {mod}:{fname} {have} -> {want}")
+
+
 def known_modules():
     return set(_lines("known_modules.txt"))
+
+
+def known_imports():
+    return set(_lines("known_imports.txt"))
+
+
+_BUILTIN_NAMES = set(dir(__import__("builtins")))
+
+
+def copy_new_imported_helpers(modules, known_funcs, log):
+    """`from .sibling import helper` that the tree the rules were written against did not have, where `helper` is a plain
+    function whose body is a single `return <expression>` over its parameters (and other such helpers): the importer gets a
+    private copy (suffix __i) in place of the imported name, which the expansion of new helpers then writes out at each use"""
+    ki = known_imports()
+    km = known_modules()
+
+    def simple(fd, S):
+        body = [st for st in fd.body if not (isinstance(st, ast.Expr) and isinstance(st.value, ast.Constant))]
+        if fd.decorator_list or len(body) != 1 or not isinstance(body[0], ast.Return) or body[0].value is None:
+            return None
+        if fd.args.vararg or fd.args.kwarg or fd.args.kwonlyargs:
+            return None
+        params = {a.arg for a in fd.args.args}
+        inner = {x.id for x in ast.walk(body[0].value) if isinstance(x, ast.Name) and isinstance(x.ctx, ast.Store)} | {a.arg for l in ast.walk(body[0].value) if isinstance(l, ast.Lambda) for a in l.args.args}
+        free = {x.id for x in ast.walk(body[0].value) if isinstance(x, ast.Name) and isinstance(x.ctx, ast.Load)} - params - inner - _BUILTIN_NAMES
+        return free
+
+    for mn, M in list(modules.items()):
+        if mn not in km:
+            continue
+        pkg = mn.rsplit(".", 1)[0] if "." in mn else ""
+        newbody, changed = [], False
+        renames = {}
+        for st in M.tree.body:
+            if not (isinstance(st, ast.ImportFrom) and st.module):
+                newbody.append(st)
+                continue
+            sname = (pkg + "." + st.module if pkg else st.module) if st.level == 1 else (st.module if st.level == 0 else None)
+            S = modules.get(sname) if sname else None
+            if S is None or S is M:
+                newbody.append(st)
+                continue
+            sdefs = {x.name: x for x in S.tree.body if isinstance(x, ast.FunctionDef)}
+            simports = {(a.asname or a.name).split(".")[0]: x for x in S.tree.body if isinstance(x, (ast.Import, ast.ImportFrom)) for a in x.names}
+            keep, copied = [], []
+            for a in st.names:
+                if f"{mn}:{a.name}" in ki or a.asname not in (None, a.name) or a.name not in sdefs:
+                    keep.append(a)
+                    continue
+                # closure of simple helpers
+                work, seen, ok, need_imports = [a.name], [], True, []
+                while work and ok:
+                    w = work.pop(0)
+                    if w in seen:
+                        continue
+                    fr = simple(sdefs[w], S) if w in sdefs else None
+                    if fr is None:
+                        ok = False
+                        break
+                    seen.append(w)
+                    for nm in sorted(fr):
+                        if nm in sdefs:
+                            work.append(nm)
+                        elif nm in simports:
+                            if isinstance(simports[nm], ast.ImportFrom) and simports[nm].level >= 1:
+                                ok = False
+                            need_imports.append(simports[nm])
+                        else:
+                            ok = False
+                if not ok:
+                    keep.append(a)
+                    continue
+                copied.append((a.name, seen, need_imports))
+            if not copied:
+                newbody.append(st)
+                continue
+            changed = True
+            if keep:
+                newbody.append(ast.copy_location(ast.ImportFrom(module=st.module, names=keep, level=st.level), st))
+            done = set()
+            for nm, seen, need_imports in copied:
+                for imp in need_imports:
+                    t = ast.unparse(imp)
+                    if t not in done:
+                        done.add(t)
+                        newbody += ast.parse(t).body
+                for w in seen:
+                    if w in done:
+                        continue
+                    done.add(w)
+                    fd = ast.parse(ast.unparse(sdefs[w])).body[0]
+                    fd.name = w + "__i"
+                    for x in ast.walk(fd):
+                        if isinstance(x, ast.Name) and x.id in seen:
+                            x.id = x.id + "__i"
+                    newbody.append(fd)
+                    renames[w] = w + "__i"
+                log.append(f"new import of a one-expression helper copied {mn} <- {sname}.{nm} (with {seen[1:]})")
+        if changed:
+            M.tree.body = newbody
+            for fn_ in [x for x in ast.walk(M.tree) if isinstance(x, (ast.FunctionDef, ast.AsyncFunctionDef)) and not x.name.endswith("__i")]:
+                for x in ast.walk(fn_):
+                    if isinstance(x, ast.Name) and x.id in renames and isinstance(x.ctx, ast.Load):
+                        x.id = renames[x.id]
+            ast.fix_missing_locations(M.tree)
 
 
 def merge_new_modules(modules, known_funcs, log):
@@ -2694,6 +3058,47 @@ def merge_new_modules(modules, known_funcs, log):
             if len(users) == 1 and users[0] in km and (users[0].rsplit(".", 1)[0] if "." in users[0] else "") == pkg:
                 home = users[0]
         if home is None:
+            # a new module of plain helper functions (no classes, no module state) shared by several known modules: every
+            # importer gets its own copy of the functions it imports (and of those they call), in place of the import
+            plain = all(
+                isinstance(st, (ast.Import, ast.ImportFrom, ast.FunctionDef))
+                or (isinstance(st, ast.Expr) and isinstance(st.value, ast.Constant))
+                or (isinstance(st, ast.Assign) and any(isinstance(t, ast.Name) and t.id in ("logger", "__all__") for t in st.targets))
+                for st in N.tree.body
+            )
+            fdefs = {st.name: st for st in N.tree.body if isinstance(st, ast.FunctionDef)}
+            users = [mn for mn, M_ in modules.items() if mn != name and mn in km and any(isinstance(st, ast.ImportFrom) and ((st.level == 1 and st.module == name.rsplit(".", 1)[-1] and (mn.rsplit(".", 1)[0] if "." in mn else "") == pkg) or st.module == name) for st in M_.tree.body)]
+            others = [mn for mn, M_ in modules.items() if mn != name and mn not in users and any((isinstance(st, ast.ImportFrom) and st.module is not None and (st.module == name or st.module.endswith("." + name.rsplit(".", 1)[-1]) or (st.level >= 1 and st.module == name.rsplit(".", 1)[-1]))) or (isinstance(st, ast.Import) and any(a.name == name for a in st.names)) for st in ast.walk(M_.tree))]
+            if plain and fdefs and len(users) > 1 and not others and not any(st.decorator_list for st in fdefs.values()):
+                imports_src = [ast.unparse(st) for st in N.tree.body if isinstance(st, (ast.Import, ast.ImportFrom)) and not (isinstance(st, ast.ImportFrom) and st.level >= 1)]
+                for mn in users:
+                    M_ = modules[mn]
+                    newb = []
+                    for st in M_.tree.body:
+                        if isinstance(st, ast.ImportFrom) and ((st.level == 1 and st.module == name.rsplit(".", 1)[-1]) or st.module == name):
+                            want = [a.name for a in st.names if a.name in fdefs and a.asname in (None, a.name)]
+                            if len(want) != len(st.names):
+                                newb.append(st)
+                                continue
+                            work, seen = list(want), []
+                            while work:
+                                w = work.pop(0)
+                                if w in seen:
+                                    continue
+                                seen.append(w)
+                                work += [x.id for x in ast.walk(fdefs[w]) if isinstance(x, ast.Name) and x.id in fdefs and x.id not in seen]
+                            have = {x.name for x in M_.tree.body if isinstance(x, (ast.FunctionDef, ast.ClassDef))}
+                            if any(w in have for w in seen):
+                                newb.append(st)
+                                continue
+                            src = "\n".join(imports_src + [ast.unparse(fdefs[w]) for w in seen])
+                            newb += ast.parse(src).body
+                            continue
+                        newb.append(st)
+                    M_.tree.body = newb
+                    ast.fix_missing_locations(M_.tree)
+                del modules[name]
+                log.append(f"new helper module {name} copied into its importers {users} ({sorted(fdefs)})")
             continue
         M = modules[home]
         body = []
@@ -3431,6 +3836,74 @@ def drop_local_annotations(modules, log):
         log.append(f"{n} local annotated assignments read as plain assignments")
 
 
+def property_calls_to_decorators(modules, log):
+    """class body `x = property(_get_x, _set_x)` with both accessors plain methods of the same class, used for nothing else
+    except direct calls `self._set_x(v)` / `self._get_x()`: the decorator spelling (`@property def x` / `@x.setter def x`),
+    and the direct accessor calls become attribute reads / writes (that is what they do)"""
+    for mi in modules.values():
+        for cls in [st for st in ast.walk(mi.tree) if isinstance(st, ast.ClassDef)]:
+            meth = {c.name: c for c in cls.body if isinstance(c, ast.FunctionDef)}
+            props = {}
+            for st in cls.body:
+                if isinstance(st, ast.Assign) and len(st.targets) == 1 and isinstance(st.targets[0], ast.Name) and isinstance(st.value, ast.Call) and ast.unparse(st.value.func) == "property" and 1 <= len(st.value.args) <= 2 and not st.value.keywords and all(isinstance(a, ast.Name) and a.id in meth and not meth[a.id].decorator_list for a in st.value.args):
+                    props[st.targets[0].id] = (st, [a.id for a in st.value.args])
+            if not props:
+                continue
+            acc = {}
+            for pn, (st, names) in props.items():
+                if pn in meth or any(n in acc for n in names):
+                    acc = None
+                    break
+                acc[names[0]] = (pn, "get")
+                if len(names) == 2:
+                    acc[names[1]] = (pn, "set")
+            if not acc:
+                continue
+            # other mentions of the accessors must be self._get_x() / self._set_x(v) calls inside the class
+            ok = True
+            for n in ast.walk(mi.tree):
+                if isinstance(n, ast.Attribute) and n.attr in acc and not (isinstance(n.value, ast.Name) and n.value.id == "self"):
+                    ok = False
+                if isinstance(n, ast.Name) and n.id in acc and not any(n in st.value.args for st, _ in props.values()):
+                    ok = False
+            if not ok:
+                continue
+
+            class R(ast.NodeTransformer):
+                def visit_Expr(self, n):
+                    v = n.value
+                    if isinstance(v, ast.Call) and isinstance(v.func, ast.Attribute) and v.func.attr in acc and acc[v.func.attr][1] == "set" and len(v.args) == 1 and not v.keywords:
+                        new = ast.Assign(targets=[ast.Attribute(value=v.func.value, attr=acc[v.func.attr][0], ctx=ast.Store())], value=self.visit(v.args[0]))
+                        ast.copy_location(new, n)
+                        return ast.fix_missing_locations(new)
+                    return self.generic_visit(n)
+
+                def visit_Call(self, n):
+                    self.generic_visit(n)
+                    if isinstance(n.func, ast.Attribute) and n.func.attr in acc and acc[n.func.attr][1] == "get" and not n.args and not n.keywords:
+                        return ast.copy_location(ast.Attribute(value=n.func.value, attr=acc[n.func.attr][0], ctx=ast.Load()), n)
+                    return n
+
+            newbody = []
+            for st in cls.body:
+                if any(st is p_[0] for p_ in props.values()):
+                    continue
+                if isinstance(st, ast.FunctionDef) and st.name in acc:
+                    pn, kind = acc[st.name]
+                    st.name = pn
+                    st.decorator_list = [ast.Name(id="property", ctx=ast.Load())] if kind == "get" else [ast.Attribute(value=ast.Name(id=pn, ctx=ast.Load()), attr="setter", ctx=ast.Load())]
+                newbody.append(st)
+            # getters must come before their setters (decorator order)
+            getters = [st for st in newbody if isinstance(st, ast.FunctionDef) and st.decorator_list and ast.unparse(st.decorator_list[0]) == "property" and st.name in props]
+            gpos = {st.name: newbody.index(st) for st in getters}
+            if any(isinstance(st, ast.FunctionDef) and st.decorator_list and ast.unparse(st.decorator_list[0]).endswith(".setter") and st.name in gpos and newbody.index(st) < gpos[st.name] for st in newbody):
+                continue
+            cls.body = newbody
+            R().visit(cls)
+            ast.fix_missing_locations(cls)
+            log.append(f"property(getter, setter) assignments written as decorators {mi.name}.{cls.name} {sorted(props)}")
+
+
 def expand_descriptors(modules, log):
     """A data-descriptor class of the packages (__set_name__ remembering the attribute name, __get__, __set__) bound as a class
     attribute `x = Desc(args)` is the property it implements: getter / setter are written out with the descriptor's state
@@ -3892,9 +4365,319 @@ def peewee_shortcuts(modules, log):
 _KNOWN_FUNCS: set = set()
 
 
+def two_arm_to_ifexp(fn, log, modname):
+    """`if c: x = A` / `else: x = B` with x a local bound nowhere else and read exactly once afterwards  ->  `x = A if c else B`
+    (the spelled-out form of a conditional expression; the single read lets the temporary be written back in place later)"""
+    stores = {}
+    loads = {}
+    for n in ast.walk(fn):
+        if isinstance(n, ast.Name):
+            (stores if isinstance(n.ctx, ast.Store) else loads).setdefault(n.id, []).append(n)
+    params = {a.arg for a in fn.args.posonlyargs + fn.args.args + fn.args.kwonlyargs}
+
+    def block(stmts):
+        out = []
+        for st in stmts:
+            for f_ in ("body", "orelse", "finalbody"):
+                if hasattr(st, f_) and isinstance(getattr(st, f_), list) and not isinstance(st, (ast.FunctionDef, ast.AsyncFunctionDef, ast.ClassDef)):
+                    setattr(st, f_, block(getattr(st, f_)))
+            if isinstance(st, ast.If) and len(st.body) == 1 and len(st.orelse) == 1 and all(isinstance(x, ast.Assign) and len(x.targets) == 1 and isinstance(x.targets[0], ast.Name) for x in (st.body[0], st.orelse[0])):
+                a, b = st.body[0], st.orelse[0]
+                x = a.targets[0].id
+                if b.targets[0].id == x and x not in params and len(stores.get(x, [])) == 2 and len(loads.get(x, [])) == 1 and not any(isinstance(y, (ast.NamedExpr, ast.Yield, ast.Await, ast.IfExp)) for v in (a.value, b.value, st.test) for y in ast.walk(v)) and not any(isinstance(y, ast.Name) and y.id == x for v in (a.value, b.value, st.test) for y in ast.walk(v)):
+                    new = ast.Assign(targets=[ast.Name(id=x, ctx=ast.Store())], value=ast.IfExp(test=st.test, body=a.value, orelse=b.value))
+                    ast.copy_location(new, st)
+                    ast.copy_location(new.value, st)
+                    ast.fix_missing_locations(new)
+                    out.append(new)
+                    log.append(f"two-armed binding written as a conditional expression {modname}:{fn.name} {x}")
+                    continue
+            out.append(st)
+        return out
+
+    fn.body = block(fn.body)
+
+
+class _Beta(ast.NodeTransformer):
+    """(lambda p: BODY)(arg) -> BODY[p := arg]: an immediately applied lambda, as left by the expansion of a helper that was
+    handed a function (each parameter read at most once, or the argument is a plain name / constant)"""
+
+    def __init__(self, log, modname):
+        self.log, self.modname = log, modname
+
+    def visit_Call(self, n):
+        self.generic_visit(n)
+        f = n.func
+        if isinstance(f, ast.Lambda) and not n.keywords and not f.args.defaults and not f.args.vararg and not f.args.kwarg and not f.args.kwonlyargs and len(n.args) == len(f.args.args) and not any(isinstance(a, ast.Starred) for a in n.args):
+            params = [a.arg for a in f.args.args]
+            if any(isinstance(x, (ast.Lambda, ast.ListComp, ast.SetComp, ast.DictComp, ast.GeneratorExp)) for x in ast.walk(f.body)):
+                return n
+            mapping = {}
+            for p_, a in zip(params, n.args):
+                reads = sum(1 for x in ast.walk(f.body) if isinstance(x, ast.Name) and x.id == p_)
+                if reads > 1 and not isinstance(a, (ast.Name, ast.Constant)):
+                    return n
+                mapping[p_] = a
+            free_in_args = {x.id for a in n.args for x in ast.walk(a) if isinstance(x, ast.Name)}
+
+            class S(ast.NodeTransformer):
+                def visit_Name(self, x):
+                    return mapping[x.id] if x.id in mapping and isinstance(x.ctx, ast.Load) else x
+
+            body = S().visit(ast.parse(ast.unparse(f.body), mode="eval").body)
+            ast.copy_location(body, n)
+            for x in ast.walk(body):
+                if not hasattr(x, "lineno"):
+                    ast.copy_location(x, n)
+            self.log.append(f"immediately applied lambda reduced {self.modname}:{n.lineno}")
+            return body
+        return n
+
+
+def arms_to_ifexp_after_expansion(fn, log, modname):
+    """after a helper with guard clauses was expanded at `if helper(...):`
+        if C: v__h = K            (K a literal)
+        else: [t = E1;] v__h = E2  (t read once, by E2)
+    becomes `v__h = K if C else E2[t := E1]`, which the single-use pass then writes into the test it feeds"""
+
+    def arm_value(arm, nm):
+        if len(arm) == 1 and isinstance(arm[0], ast.Assign) and len(arm[0].targets) == 1 and isinstance(arm[0].targets[0], ast.Name) and arm[0].targets[0].id == nm:
+            return arm[0].value
+        if len(arm) == 2 and all(isinstance(x, ast.Assign) and len(x.targets) == 1 and isinstance(x.targets[0], ast.Name) for x in arm) and arm[1].targets[0].id == nm:
+            t = arm[0].targets[0].id
+            reads = [x for x in ast.walk(fn) if isinstance(x, ast.Name) and x.id == t and isinstance(x.ctx, ast.Load)]
+            stores = [x for x in ast.walk(fn) if isinstance(x, ast.Name) and x.id == t and isinstance(x.ctx, ast.Store)]
+            inside = [x for x in ast.walk(arm[1].value) if isinstance(x, ast.Name) and x.id == t]
+            if len(reads) == 1 and len(stores) == 1 and len(inside) == 1 and not any(isinstance(y, (ast.NamedExpr, ast.Yield, ast.Await)) for y in ast.walk(arm[0].value)):
+                class R(ast.NodeTransformer):
+                    def visit_Name(self, n):
+                        return ast.parse(ast.unparse(arm[0].value), mode="eval").body if n.id == t and isinstance(n.ctx, ast.Load) else n
+                return R().visit(ast.parse(ast.unparse(arm[1].value), mode="eval").body)
+        return None
+
+    def block(stmts):
+        out = []
+        for st in stmts:
+            for f_ in ("body", "orelse", "finalbody"):
+                if hasattr(st, f_) and isinstance(getattr(st, f_), list) and not isinstance(st, (ast.FunctionDef, ast.AsyncFunctionDef, ast.ClassDef)):
+                    setattr(st, f_, block(getattr(st, f_)))
+            if isinstance(st, ast.If) and st.body and st.orelse:
+                last = st.body[-1]
+                nm = last.targets[0].id if isinstance(last, ast.Assign) and len(last.targets) == 1 and isinstance(last.targets[0], ast.Name) else None
+                if nm and nm.endswith("__h"):
+                    a, b = arm_value(st.body, nm), arm_value(st.orelse, nm)
+                    if a is not None and b is not None and (isinstance(a, ast.Constant) or isinstance(b, ast.Constant)):
+                        new = ast.Assign(targets=[ast.Name(id=nm, ctx=ast.Store())], value=ast.IfExp(test=st.test, body=a, orelse=b))
+                        ast.copy_location(new, st)
+                        ast.fix_missing_locations(new)
+                        for x in ast.walk(new):
+                            if not hasattr(x, "lineno"):
+                                ast.copy_location(x, st)
+                        out.append(new)
+                        log.append(f"expanded guard clauses written as one conditional expression {modname}:{fn.name} {nm}")
+                        continue
+            out.append(st)
+        return out
+
+    fn.body = block(fn.body)
+
+
+class _BoolIfExp(ast.NodeTransformer):
+    """in a test:  (False if C else E) -> (not C) and E ;  (True if C else E) -> C or E ;  (E if C else False) -> C and E"""
+
+    def visit_If(self, n):
+        self.generic_visit(n)
+        n.test = self._t(n.test)
+        return n
+
+    visit_While = visit_If
+
+    def _t(self, e):
+        if isinstance(e, ast.UnaryOp) and isinstance(e.op, ast.Not):
+            e.operand = self._t(e.operand)
+            return e
+        if isinstance(e, ast.BoolOp):
+            e.values = [self._t(v) for v in e.values]
+            return e
+        if isinstance(e, ast.IfExp):
+            k_body = e.body.value if isinstance(e.body, ast.Constant) and isinstance(e.body.value, bool) else None
+            k_else = e.orelse.value if isinstance(e.orelse, ast.Constant) and isinstance(e.orelse.value, bool) else None
+            new = None
+            if k_body is False:
+                new = ast.BoolOp(op=ast.And(), values=[ast.UnaryOp(op=ast.Not(), operand=e.test), self._t(e.orelse)])
+            elif k_body is True:
+                new = ast.BoolOp(op=ast.Or(), values=[e.test, self._t(e.orelse)])
+            elif k_else is False:
+                new = ast.BoolOp(op=ast.And(), values=[e.test, self._t(e.body)])
+            elif k_else is True:
+                new = ast.BoolOp(op=ast.Or(), values=[ast.UnaryOp(op=ast.Not(), operand=e.test), self._t(e.body)])
+            if new is not None:
+                ast.copy_location(new, e)
+                for x in ast.walk(new):
+                    if not hasattr(x, "lineno"):
+                        ast.copy_location(x, e)
+                # flatten nested and
+                if isinstance(new.op, ast.And):
+                    flat = []
+                    for v in new.values:
+                        flat += v.values if isinstance(v, ast.BoolOp) and isinstance(v.op, ast.And) else [v]
+                    new.values = flat
+                return new
+        return e
+
+
+def prefix_slice_to_token(fn, log, modname):
+    """T = ""; for c in S: (T += c | break)   ...   S[:len(T)]  ->  T
+    T is, by construction, the leading len(T) characters of S (every round either appends the current character or stops)"""
+    inits = {}
+    for n in ast.walk(fn):
+        if isinstance(n, ast.Assign) and len(n.targets) == 1 and isinstance(n.targets[0], ast.Name) and isinstance(n.value, ast.Constant) and n.value.value == "":
+            inits.setdefault(n.targets[0].id, []).append(n)
+    # a temporary of an expansion that holds len(<local>) is written back (len of a str local is pure and cheap)
+    for n in list(ast.walk(fn)):
+        if isinstance(n, ast.Assign) and len(n.targets) == 1 and isinstance(n.targets[0], ast.Name) and n.targets[0].id.endswith("__h") and isinstance(n.value, ast.Call) and ast.unparse(n.value.func) == "len" and len(n.value.args) == 1 and isinstance(n.value.args[0], ast.Name) and n.value.args[0].id in inits:
+            X, Tn = n.targets[0].id, n.value.args[0].id
+            if sum(1 for x in ast.walk(fn) if isinstance(x, ast.Name) and x.id == X and isinstance(x.ctx, ast.Store)) != 1:
+                continue
+            # the local is not re-bound between the temporary and its reads: only `+=` inside the scanning loop, which is over
+            later_store = [x for x in ast.walk(fn) if isinstance(x, ast.Name) and x.id == Tn and isinstance(x.ctx, ast.Store) and getattr(x, "lineno", 0) > n.lineno]
+            if later_store:
+                continue
+
+            class L(ast.NodeTransformer):
+                def visit_Name(self, x):
+                    if x.id == X and isinstance(x.ctx, ast.Load):
+                        return ast.copy_location(ast.parse(f"len({Tn})", mode="eval").body, x)
+                    return x
+
+            L().visit(fn)
+
+            class D(ast.NodeTransformer):
+                def visit_Assign(self, a):
+                    return None if a is n else a
+
+            D().visit(fn)
+            ast.fix_missing_locations(fn)
+    done = []
+    for T, ini in inits.items():
+        if len(ini) != 1:
+            continue
+        stores = [x for x in ast.walk(fn) if isinstance(x, ast.Name) and x.id == T and isinstance(x.ctx, ast.Store)]
+        augs = [x for x in ast.walk(fn) if isinstance(x, ast.AugAssign) and isinstance(x.target, ast.Name) and x.target.id == T]
+        if len(stores) != 1 + len(augs) or not augs:
+            continue
+        loops = [l for l in ast.walk(fn) if isinstance(l, ast.For) and any(a is x for x in ast.walk(l) for a in augs)]
+        if len(loops) != 1 or loops[0].orelse:
+            continue
+        lp = loops[0]
+        S = c = None
+        if isinstance(lp.target, ast.Name) and isinstance(lp.iter, ast.Name):
+            S, c = lp.iter.id, lp.target.id
+        elif isinstance(lp.target, ast.Tuple) and len(lp.target.elts) == 2 and all(isinstance(e, ast.Name) for e in lp.target.elts) and isinstance(lp.iter, ast.Call) and ast.unparse(lp.iter.func) == "enumerate" and len(lp.iter.args) == 1 and isinstance(lp.iter.args[0], ast.Name):
+            S, c = lp.iter.args[0].id, lp.target.elts[1].id
+        if S is None or any(isinstance(x, ast.Name) and x.id == S and isinstance(x.ctx, ast.Store) for x in ast.walk(fn)):
+            continue
+        if any(isinstance(x, ast.Continue) for x in ast.walk(lp)):
+            continue
+
+        def ok(block):
+            block = [b for b in block if not (isinstance(b, ast.Expr) and isinstance(b.value, ast.Constant))]
+            if len(block) == 1 and isinstance(block[0], ast.If):
+                return ok(block[0].body) and bool(block[0].orelse) and ok(block[0].orelse)
+            if block and isinstance(block[-1], (ast.Break, ast.Return, ast.Raise)) and not any(a is x for b in block for x in ast.walk(b) for a in augs):
+                return True
+            if len(block) == 1 and isinstance(block[0], ast.AugAssign) and block[0] in augs and isinstance(block[0].op, ast.Add) and isinstance(block[0].value, ast.Name) and block[0].value.id == c:
+                return True
+            return False
+
+        if not ok(lp.body):
+            continue
+        want = f"{S}[:len({T})]"
+        in_loop = {id(x) for x in ast.walk(lp)}
+        # ... and the loop is followed by no other loop that could run before the slice is taken with a longer T: T is only
+        # ever extended inside this loop, so after it T is final
+
+        class R(ast.NodeTransformer):
+            def visit_Subscript(self, n):
+                self.generic_visit(n)
+                if ast.unparse(n) == want and id(n) not in in_loop:
+                    done.append(want)
+                    return ast.copy_location(ast.Name(id=T, ctx=ast.Load()), n)
+                return n
+
+        R().visit(fn)
+    if done:
+        log.append(f"slice that re-takes the scanned prefix read as the token {modname}:{fn.name} {sorted(set(done))}")
+
+
+PW_BUILDERS = ("where", "order_by", "limit", "offset")
+
+
+def refine_last(fn, log, modname):
+    """peewee: `q = self._where_range(CHAIN, s, e).order_by(k).limit(n)` -> `q = CHAIN.order_by(k).limit(n)` followed by
+    `q = self._where_range(q, s, e)`; `return self._where_range(CHAIN, s, e).count()` -> the three statements the rules
+    know.  _where_range only adds where() conjuncts to the query it is given and the builder calls of a select commute
+    (WHERE / ORDER BY / LIMIT clauses of one statement), so both spellings build the same statement"""
+    if not modname.endswith("peewee"):
+        return
+
+    def split(v):
+        """v = ROOT.m1(..).m2(..) with ROOT = self._where_range(A, ...)  ->  (root call, [outer calls, innermost first])"""
+        outer = []
+        n = v
+        while isinstance(n, ast.Call) and isinstance(n.func, ast.Attribute):
+            if ast.unparse(n.func) == "self._where_range":
+                return n, outer[::-1]
+            outer.append(n)
+            n = n.func.value
+        return None, None
+
+    def block(stmts):
+        out = []
+        for st in stmts:
+            for f_ in ("body", "orelse", "finalbody"):
+                if hasattr(st, f_) and isinstance(getattr(st, f_), list) and not isinstance(st, (ast.FunctionDef, ast.AsyncFunctionDef, ast.ClassDef)):
+                    setattr(st, f_, block(getattr(st, f_)))
+            v = st.value if isinstance(st, (ast.Assign, ast.Return)) else None
+            root, outer = split(v) if v is not None else (None, None)
+            if root is None or not root.args or isinstance(root.args[0], ast.Name) and not outer:
+                out.append(st)
+                continue
+            tail_count = bool(outer) and outer[-1].func.attr in ("count", "execute") and isinstance(st, ast.Return)
+            builders = outer[:-1] if tail_count else outer
+            if not all(c.func.attr in PW_BUILDERS for c in builders) or (isinstance(st, ast.Return) and not tail_count):
+                out.append(st)
+                continue
+            if isinstance(st, ast.Assign) and not (len(st.targets) == 1 and isinstance(st.targets[0], ast.Name)):
+                out.append(st)
+                continue
+            q = st.targets[0].id if isinstance(st, ast.Assign) else "q"
+            chain = ast.unparse(root.args[0])
+            for c in builders:
+                chain = f"({chain}).{c.func.attr}({', '.join([ast.unparse(a) for a in c.args] + [ast.unparse(k) for k in c.keywords])})"
+            rest = ", ".join([ast.unparse(a) for a in root.args[1:]] + [ast.unparse(k) for k in root.keywords])
+            src = f"{q} = {chain}\n{q} = self._where_range({q}{', ' + rest if rest else ''})\n"
+            if tail_count:
+                c = outer[-1]
+                src += f"return {q}.{c.func.attr}({', '.join(ast.unparse(a) for a in c.args)})\n"
+            new = ast.parse(src).body
+            for x in new:
+                ast.copy_location(x, st)
+                for y in ast.walk(x):
+                    if not hasattr(y, "lineno") or True:
+                        y.lineno, y.col_offset = st.lineno, getattr(y, "col_offset", 0)
+                        y.end_lineno, y.end_col_offset = st.lineno, getattr(y, "end_col_offset", 0)
+            out += new
+            log.append(f"window refinement written as its own statement {modname}:{fn.name}")
+        return out
+
+    fn.body = block(fn.body)
+
+
 def post_inline(modules):
     log = []
     for mi in modules.values():
+        mi.tree = _Beta(log, mi.name).visit(mi.tree)
         mi.tree = _Misc(log, mi.name).visit(mi.tree)
         ast.fix_missing_locations(mi.tree)
         for n in ast.walk(mi.tree):
@@ -3902,6 +4685,14 @@ def post_inline(modules):
                 dict_items_to_pairs(n, log, mi.name)
                 filter_loop_to_comprehension(n, log, mi.name)
                 truth_alias(n, log, mi.name)
+                arms_to_ifexp_after_expansion(n, log, mi.name)
+                inline_single_use_temps(n, log, mi.name)
+                _BoolIfExp().visit(n)
+                push_negations(n, log, mi.name)
+                refine_last(n, log, mi.name)
+                prefix_slice_to_token(n, log, mi.name)
+        mi.tree = _Beta(log, mi.name).visit(mi.tree)
+        ast.fix_missing_locations(mi.tree)
     return [f"(after expansion) {l}" for l in log]
 
 
@@ -3911,6 +4702,8 @@ def run(modules, known_funcs):
     _KNOWN_FUNCS.clear()
     _KNOWN_FUNCS.update(known_funcs)
     merge_new_modules(modules, known_funcs, log)
+    copy_new_imported_helpers(modules, known_funcs, log)
+    property_calls_to_decorators(modules, log)
     fold_new_bases(modules, known_funcs, log)
     singledispatch_chains(modules, log)
     dissolve_method_objects(modules, known_funcs, log)
@@ -3924,6 +4717,8 @@ def run(modules, known_funcs):
     composed_decorators(modules, known_funcs, log)
     prefix_decorators(modules, known_funcs, log)
     inline_context_managers(modules, known_funcs, log)
+    canonical_imports(modules, log)
+    role_named_locals(modules, log)
     specialise_new_parameters(modules, known_funcs, log)
     keywords_to_positional(modules, log)
     inline_constants(modules, log)
@@ -3941,6 +4736,7 @@ def run(modules, known_funcs):
                 iterator_to_index(n, log, mi.name)
                 prefix_scanner_to_token(n, log, mi.name)
                 drop_log_only_locals(n, log, mi.name)
+                logged_result_to_return(n, log, mi.name)
                 flag_to_condition(n, log, mi.name)
                 filter_loop_to_comprehension(n, log, mi.name)
                 enumerate_start_to_counter(n, log, mi.name)
@@ -3951,4 +4747,17 @@ def run(modules, known_funcs):
                 work_then_continue_to_else(n, log, mi.name)
                 truth_alias(n, log, mi.name)
                 eafp_to_lbyl(n, log, mi.name)
+    # spelled-out conditional expressions: only in functions that changed since the rules were written (the rules know the
+    # statement form where the original has it)
+    fps = known_fingerprints()
+    for mi in modules.values():
+        for q, node, _scope in iter_functions(mi.tree, mi.name):
+            if fps.get(q) is not None:
+                try:
+                    same = fps.get(q) == fingerprint(node)
+                except Exception:
+                    same = False
+                if same:
+                    continue
+            two_arm_to_ifexp(node, log, mi.name)
     return log
